@@ -1178,6 +1178,11 @@ func (r *Resolver) addSubscription(triggerID uint64, add *addSubscription) error
 	if r.shutdown {
 		return r.ctx.Err()
 	}
+	// Registering a second subscription under a live id would overwrite the first one in the indexes:
+	// it could no longer be unsubscribed and would leak together with its trigger.
+	if _, exists := r.subscriptionsByID[add.id]; exists {
+		return fmt.Errorf("subscription %d of connection %d is already registered", add.id.SubscriptionID, add.id.ConnectionID)
+	}
 	if r.options.Debug {
 		fmt.Printf("resolver:trigger:subscription:add:%d:%d\n", triggerID, add.id.SubscriptionID)
 	}
